@@ -153,9 +153,7 @@ def run(ctx):
     nf = ctx.need('MPT-C06c', 'Memvid::next_frame_id')
     if nf is not None:
         ctx.touch(nf, len(nf.blocks))
-        ops = []
-        for ex in nf.ret_assignments():
-            ops += ex['call'].args if ex['kind'] == 'call' else lib.rv_operands(ex['rv'])
+        ops = lib.ret_operands(nf)
         sl = lib.slice_back(nf, ops)
         fields = {(o, f) for o, f in sl.fields if o}
         want = {('Memvid', 'toc'), ('Toc', 'frames'), ('Memvid', 'pending_frame_inserts')}
